@@ -161,7 +161,9 @@ class Lifter:
                     and isinstance(n.ops[0], (ast.Lt, ast.LtE, ast.Gt,
                                               ast.GtE)):
                 return True
-        if 'len(' in t and isinstance(last, ast.Raise):
+        if ('len(' in t or '.size' in t or '.shape' in t) and isinstance(
+                last, ast.Raise):
+            # input validation: `if x.size != n: raise`
             return True
         return False
 
